@@ -252,9 +252,11 @@ def run(index: RepoIndex, rep) -> None:
     outer_env_rules(index, rep, 'C20.R7')
 
     rep.rule('C20.R8', 'what the adapter returns lies in the advertised spaces: per-object '
-             'bounds of the representations (C15.R1)', floor=20)
-    from .c15 import per_object_bounds
+             'bounds of the representations (C15.R1) over the type sets of the space (C15.R2)',
+             floor=20)
+    from .c15 import per_object_bounds, type_sets
     per_object_bounds(index, rep, 'C20.R8')
+    type_sets(index, rep, 'C20.R8')
 
     # ---------------------------------------------------------------- R6
     m = ge.methods.get('seed')
